@@ -49,6 +49,13 @@ var cgTables = [][]refmodel.RouteDef{
 	{{Path: "/a/{n:[a-z]+}", Methods: []string{"POST"}}, {Path: "/a/{x}", Methods: []string{"GET", "POST", "DELETE"}}, {Path: "/{x}/b", Methods: []string{"DELETE", "HEAD"}}},
 	// the last route outranks the first for the paths both match (it matters when it is registered late)
 	{{Path: "/{x}/{y}", Methods: []string{"GET", "DELETE"}}, {Path: "/a/{x}", Methods: []string{"GET", "POST"}}},
+	// dynamic routes without any variable (an optional part only), next to an ordinary one
+	{{Path: "/about[.html]", Methods: []string{"GET"}}, {Path: "/docs/index[.html]", Methods: []string{"GET", "POST"}}, {Path: "/a/{x}", Methods: []string{"GET"}}},
+}
+
+// requests added to the alphabet for one table only
+var cgTableRequests = map[int][]cgReq{
+	10: {{"GET", "/about"}, {"GET", "/about.html"}, {"POST", "/docs/index.html"}, {"HEAD", "/docs/index.html"}},
 }
 
 var cgRequests = []cgReq{
@@ -414,11 +421,15 @@ func cgReqs(ext bool) []cgReq {
 	return cgRequests
 }
 
+func cgReqsFor(table int, ext bool) []cgReq {
+	return append(append([]cgReq{}, cgReqs(ext)...), cgTableRequests[table]...)
+}
+
 var c07Spec = fw.Spec[c07Case]{
 	ID:         "C07",
 	Level:      "model_checking",
 	StateGraph: true,
-	Rule: "explicit-state search to fix-point per configuration (10 route tables x {HandleMethodNotAllowed} x {HandleFallbackRoute} x {StrictLastSlash} x capacities 0..3(4)): state = cache content in recency order with route and params per entry (verif hook); " +
+	Rule: "explicit-state search to fix-point per configuration (11 route tables x {HandleMethodNotAllowed} x {HandleFallbackRoute} x {StrictLastSlash} x capacities 0..3(4)): state = cache content in recency order with route and params per entry (verif hook); " +
 		"all histories of length <=2 (thorough 3) without state merging, then every reachable state x every request of the alphabet (13 / 16 requests: hits, misses, evictions, HEAD->GET, 405 probes, fallback, 404) executed on the real caching router via Match and ServeHTTP and compared with the non-caching twin; for capacity 2 (thorough 1 and 3) the graph is explored again with the registration of the table's last route as one more action, enabled once at any point; non-trivial = newly reached distinct cache state",
 	Assume: []string{
 		"canonical state = cache content only: tables and options are frozen after registration and contexts are reset per request (C10)",
@@ -432,7 +443,7 @@ var c07Spec = fw.Spec[c07Case]{
 		cgGen(tier, func(c cgConfig, ext bool) { emit(c07Case{Cfg: c, Ext: ext, Full: cgFullDepth(tier)}) })
 	},
 	Run: func(c c07Case, st *fw.Stats) []fw.Viol {
-		return cacheGraphRun(c.Cfg, cgReqs(c.Ext), "C07", c.Full, st)
+		return cacheGraphRun(c.Cfg, cgReqsFor(c.Cfg.Table, c.Ext), "C07", c.Full, st)
 	},
 	Guard: func(tier string, st *fw.Stats) []string {
 		var g []string
